@@ -2,6 +2,7 @@ import TrionModel.Lemmas.AsmFile
 import TrionModel.Lemmas.AsmEnc
 import TrionModel.Lemmas.AsmLoud
 import TrionModel.Lemmas.AsmDiagPos
+import TrionModel.Lemmas.AsmNoLoop
 /-!
 # C06 — every input yields success or diagnostics, never a crash: the whole pipeline
 
@@ -13,7 +14,7 @@ Rust code is an explicit `Stop.panic` of the model (list in the header of Model/
 `run_no_panic` is THE theorem of the property: for every file system and every main path the outcome is not
 `Result.panic`.  The other non-`done` outcomes are named exclusions, not panics of the code:
   * `Result.fuel`  — more than `maxDepth` nested includes (cyclic includes: known finding K2);
-  * `Result.loop`  — the round counter of a task loop ran out (model artefact);
+  * `Result.loop`  — the round counter of a task loop ran out: model artefact, proved unreachable (`run_no_loop`);
   * `Result.noMain`— `fs main = none` (the binary reports an I/O error before creating a `Context`).
 
 The proof is the whole-state invariant `Good` (Lemmas/AsmBase.lean) — region invariant of C13, every queued task
@@ -65,6 +66,22 @@ parser, every directive, the instruction front end and encoder, output regions, 
 includes, both task loops, `close_segment`, `finalize` — never reaches a panic site of the Rust code. -/
 theorem run_no_panic (fs : Bytes → Option Bytes) (main : Bytes) : run fs main ≠ .panic :=
   runWith_no_panic encoder encoder_len fs main
+
+/-- C06.run_no_loop  The round counters of the task loops never run out: a task never queues a local task, and
+what it queues globally is a retry with `global = true`, which queues nothing (Lemmas/AsmNoLoop.lean). -/
+theorem run_no_loop (fs : Bytes → Option Bytes) (main : Bytes) : run fs main ≠ .loop :=
+  runWith_no_loop encoder fs main
+
+/-- C06.run_cases  Every run ends in an outcome (success or diagnostics, `run_outcome`), unless the main file does
+not exist or the include depth exceeds the model's bound (cyclic includes, known finding K2). -/
+theorem run_cases (fs : Bytes → Option Bytes) (main : Bytes) :
+    (∃ o, run fs main = .done o) ∨ run fs main = .noMain ∨ run fs main = .fuel := by
+  cases h : run fs main with
+  | done o => exact .inl ⟨o, rfl⟩
+  | noMain => exact .inr (.inl rfl)
+  | fuel => exact .inr (.inr rfl)
+  | panic => exact absurd h (run_no_panic fs main)
+  | loop => exact absurd h (run_no_loop fs main)
 
 /-- C06.run_outcome  The shape of every outcome: success (close succeeded and `finalize` returned true) means that
 `assemble` returned `Ok` and that not a single diagnostic was recorded; a failure always shows as at least one
